@@ -12,9 +12,9 @@ def tasks(tier):
     def pat(bm, bn, bp, k, np_, func, **hc):
         T.append(('sx.tasks', 'run_instance', ('sx.leak', 'leak', dict(base_module=bm, base_name=bn, base_params=bp), dict(k=k, no_prss=np_, tv=(0 if np_ else 1), **hc),
                                                func, f'declassification pattern of every opening; all values, k={k}, {"no PRSS" if np_ else "PRSS"}', 2000)))
-    def views(bm, bn, bp, k, np_, func, nadd=1, max_syms=40, **hc):
+    def views(bm, bn, bp, k, np_, func, nadd=1, max_syms=40, ideal=None, **hc):
         T.append(('sx.leak', 'run_view_enum', (bm, bn, bp, dict(k=k, no_prss=np_, tv=(0 if np_ else 1), **hc), func,
-                                               f'exact view distributions, every secret input and every randomness assignment, k={k}, {"no PRSS" if np_ else "PRSS"}', nadd, 400000, max_syms)))
+                                               f'exact view distributions, every secret input and every randomness assignment, k={k}, {"no PRSS" if np_ else "PRSS"}', nadd, 400000, max_syms, None, ideal)))
     ks = (8,) if tier == 'quick' else (8, 16)
     for k in ks:
         for np_ in (False, True):
@@ -46,6 +46,8 @@ def tasks(tier):
         views('sx.leak', 'izp', dict(kind='int', l=3), 2, np_, 'mpyc.runtime.Runtime.is_zero_public [large field]', 0, 7, stub_is_zero_public=False)
         views('sx.leak', 'izp', dict(kind='fld', p=5), 2, np_, 'mpyc.runtime.Runtime.is_zero_public [medium field]', 0, 7, stub_is_zero_public=False)
         views('sx.leak', 'izp', dict(kind='fld', p=5), 4, np_, 'mpyc.runtime.Runtime.is_zero_public [small field]', 0, 7, stub_is_zero_public=False)
+        # the probabilistic zero test of [NO07] (is_zero for bit_length > 2k): called directly on a 6-bit Blum prime, k = 1: views identical for all nonzero inputs
+        views('sx.leak', 'is_zero_nishide', dict(l=2, p=43), 1, np_, 'mpyc.runtime.Runtime._is_zero', 0, 12, 'ideal_is_zero')
     return T
 
 
